@@ -5,6 +5,7 @@ import QclibModel.Proofs.Mcu2Base
 import QclibModel.Proofs.Mcu2OpFull
 import QclibModel.Proofs.Mcu2OpInst
 import QclibModel.Proofs.McxAoQdmcu
+import QclibModel.Proofs.Mcu2ErrFull
 /-
   C04, part B — the U(2) multi-controlled gates `Ldmcu`, `Qdmcu`, `Mcg`, `MCU`
   (qclib/gates/ldmcu.py, qdmcu.py, mcg.py, mcu.py).  Property theorems only; the models are in
@@ -244,17 +245,20 @@ example (ε : ℝ) (h0 : 0 < ε) (h2 : ε < 2) : 2 ≤ numBaseR Real.pi ε := by
   exact absurd this (not_le.mpr h3)
 
 /-
-  FULL STATEMENT (not proved): whenever `MCU.__init__` accepts, the spectral norm of
-  `⟦mcu k b cs⟧ - C^k(U)` is at most `ε`.
-  PROVED (`C04_mcu_error_partial`): the one-qubit bound.  The truncated ladder omits the root
+  FULL STATEMENT (now proved: `C04_mcu_error`, with the exact circuit-versus-ideal relation
+  `C04_mcu_operator`, further down in this file): whenever `MCU.__init__` accepts, the spectral
+  norm of `⟦mcu k b cs⟧ - C^k(U)` is at most `ε`.
+  `C04_mcu_error_partial` is the one-qubit bound used there.  The truncated ladder omits the root
   `U^(1/2^(b-1))` of base control 0; in `U`'s eigenbasis that factor is
   `diag(e^{iφ/2^(b-1)}, e^{iψ/2^(b-1)})` with `|ψ| ≤ |φ| = angle ≤ π` (the selected angle is the one
   with the larger `1 - cos`); both diagonal entries of `I - factor` have modulus
   `≤ 2·sin(angle/2^b) ≤ ε`.
-  MISSING: that the circuit differs from `C^k(U)` exactly by this factor on a subspace (the
-  ladder bookkeeping above with the wire-0 root removed), that the spectral norm of a diagonal
-  matrix is its largest modulus, and unitary invariance of the norm.  The oracle checks the
-  spectral-norm bound numerically on every accepted parameter set.
+  What was missing here and is supplied by `Proofs/Mcu2Err*.lean`: that the circuit differs from
+  `C^k(U)` exactly by this factor on a subspace (the ladder bookkeeping above with the wire-0 root
+  removed and the gates of base control 0 merged into one multi-target call), that a matrix
+  `P·diag(d₀, d₁)·P†` moves no vector by more than `max|d_i|` times its length, and unitary
+  invariance of the ℓ² norm.  The oracle checks the spectral-norm bound numerically on every
+  accepted parameter set.
 -/
 open Real in
 /-- **Size of the factor `MCU` omits.** -/
@@ -402,5 +406,144 @@ example (Rx : ℚ → Mat2 ℂ) (ψ : State ℂ) :
       = some gs := ⟨_, rfl⟩
   exact ⟨gs, hgs, C04_qdmcu_full (R := ℂ) realAngles pi8_real phaseGroup phaseGroup_oneParam 7 _ gs
     hgs Rx ψ⟩
+
+/-! ### The approximate gate `MCU` at operator level
+
+`semM Ur Rx gs` (`Proofs/Mcu2ErrSem.lean`) is `semLG` with one more clause: the multi-target call
+`mtmcsu2 ctrls tgts rx` (`MultiTargetMCSU2.multi_target_mcsu2(circ, [RX(s_j·π/p_j)], ctrls, tgts)`,
+which `MCU._c1c2` uses for the gates of base control 0 when there are extra controls) has its
+ideal meaning — for every `j` in order, `Rx (s_j/p_j)` on `tgts[j]` iff all of `ctrls` read 1.
+That `MultiTargetMCSU2.definition` has this meaning for two or more controls is
+`C04_multitarget_spec`; `MCU` always calls it with `extra_q + 1 ≥ 2` controls. -/
+
+/-- **C04_mcu_operator — what `MCU(U, k, error, ctrl_state).definition` denotes exactly.**
+For every number of controls `k`, every base count `1 ≤ b ≤ k` (`b = n_ctrl_base`), every accepted
+pattern and every state `ψ` (superposed controls, any target, any spectators): the gate list of
+the model — X layer, the four truncated sweeps of `MCU._c1c2` with `k - b` extra controls, X layer —
+denotes the exact multi-controlled `U = Ur 1` (control `i` reading `ctrl_state[::-1][i]`)
+composed with a correction: the inverse `U^(-1/2^(b-1))` of the omitted root on the target,
+controlled by the `k - b + 1` lowest controls only (same pattern).  So the circuit is exact
+wherever one of the controls `0 … k-b` fails its pattern bit, and off by the factor
+`U^(-1/2^(b-1))` on the target elsewhere — whatever the remaining `b - 1` controls read.
+Proof: on a basis input of the controls the run of `C04_ladder_run_partial` is redone for the
+kept schedule translated by `k - b` wires, the gates of base control 0 (moved into one
+multi-target call at the end of their sweep, controlled by the wires `0 … k-b`) reading the virtual
+bit `x_0 ∧ … ∧ x_{k-b}` (`runM12`, `runM34`, `simM_step`); linearity and the X layers as for
+`C04_ldmcu_full`.  Trusted (K4): as for `C04_ldmcu_full`, plus the meaning of the multi-target
+call stated above. -/
+theorem C04_mcu_operator {Θ R : Type} [CommRing R] [RotSem Θ R] (Ur Rx : ℚ → Mat2 R)
+    (hU : OneParam Ur) (hR : OneParam Rx) (hH : HalfTurn Rx) (k b : Nat) (hb : 1 ≤ b)
+    (cs : Option (List Bool)) (gs : List (LG Θ)) (h : mcu k (b : Int) cs = some gs)
+    (ψ : State R) :
+    semM Ur Rx gs ψ
+      = applyMcu (patLits k (fun i => i) cs) (Ur 1) k
+          (applyMcu (patLits (k - b + 1) (fun i => i) cs) (Ur (-(1 / 2 ^ (b - 1)))) k ψ) :=
+  mcu_sem_pos hU hR hH k b hb cs gs h ψ
+
+/-- **C04_mcu_degenerate** — the two remaining accepted cases of `MCU.__init__`.  (1) A negative
+base count (the code only rejects `0` and counts above `k`): every `range` of `_c1c2` is empty and
+the definition is the identity on every state.  (2) No controls: the definition is `unitary(U)`. -/
+theorem C04_mcu_degenerate {Θ R : Type} [CommRing R] [RotSem Θ R] (Ur Rx : ℚ → Mat2 R)
+    (cs : Option (List Bool)) (gs : List (LG Θ)) (ψ : State R) :
+    (∀ k b, 1 ≤ k → b < 0 → mcu k b cs = some gs → semM Ur Rx gs ψ = ψ) ∧
+    (∀ b, mcu 0 b cs = some gs → semM Ur Rx gs ψ = applyMcu [] (Ur 1) 0 ψ) :=
+  ⟨fun k b hk hb h => mcu_sem_neg k hk b hb cs gs h ψ, fun b h => mcu_sem_zero b cs gs h ψ⟩
+
+/-- Non-vacuity of `C04_mcu_operator` / `C04_mcu_degenerate`: five controls, `b = 3` (two extra
+controls: the multi-target calls `mtmcsu2 [0, 1, 2] [4, 3] …` are controlled by wires 0, 1, 2),
+pattern `10110`, over `ℂ` with a non-diagonal `U = P·diag(e^{iα}, e^{iβ})·P†`: the model emits a
+gate list, and it denotes `C^5(U)` (pattern) composed with `U^(-1/4)` controlled by wires
+0, 1, 2. -/
+example (α β : ℝ) (ψ : State ℂ) :
+    ∃ gs : List (LG ℝ), mcu 5 3 (some (parseCs "10110")) = some gs ∧
+      semM (urReal ⟨3 / 5, -(4 / 5), 4 / 5, 3 / 5⟩ ⟨3 / 5, 4 / 5, -(4 / 5), 3 / 5⟩ α β) rxReal gs ψ
+        = applyMcu [(0, false), (1, true), (2, true), (3, false), (4, true)]
+            (urReal ⟨3 / 5, -(4 / 5), 4 / 5, 3 / 5⟩ ⟨3 / 5, 4 / 5, -(4 / 5), 3 / 5⟩ α β 1) 5
+            (applyMcu [(0, false), (1, true), (2, true)]
+              (urReal ⟨3 / 5, -(4 / 5), 4 / 5, 3 / 5⟩ ⟨3 / 5, 4 / 5, -(4 / 5), 3 / 5⟩ α β
+                (-(1 / 2 ^ (3 - 1)))) 5 ψ) := by
+  obtain ⟨gs, hgs⟩ : ∃ gs : List (LG ℝ), mcu 5 3 (some (parseCs "10110")) = some gs := ⟨_, rfl⟩
+  have hP : (⟨3 / 5, -(4 / 5), 4 / 5, 3 / 5⟩ : Mat2 ℂ) * ⟨3 / 5, 4 / 5, -(4 / 5), 3 / 5⟩ = 1 := by
+    apply Mat2.ext' <;> simp [Mcsu.mat_mul_def, Mcsu.mat_one_def, Mat2.mul, Mat2.one] <;> norm_num
+  have hP' : (⟨3 / 5, 4 / 5, -(4 / 5), 3 / 5⟩ : Mat2 ℂ) * ⟨3 / 5, -(4 / 5), 4 / 5, 3 / 5⟩ = 1 := by
+    apply Mat2.ext' <;> simp [Mcsu.mat_mul_def, Mcsu.mat_one_def, Mat2.mul, Mat2.one] <;> norm_num
+  exact ⟨gs, hgs, C04_mcu_operator _ _ (urReal_oneParam _ _ hP hP' α β) rxReal_oneParam
+    rxReal_halfTurn 5 3 (by omega) _ gs hgs ψ⟩
+
+/-- **C04_mcu_error — the error bound of the approximate multi-controlled gate, all `k`, all
+states.**  Let `U = P·diag(e^{iα}, e^{iβ})·P†` with `P` unitary (`P·P† = P†·P = 1`: the
+specification of `orthonormal_eig`, as in `C04_ldmcu_full`), let `angle > 0` be the selected
+eigen-angle of `_get_num_base_ctrl_qubits` — the one with the larger `1 - cos`, i.e. `|α|, |β| ≤
+angle` — and `0 < ε ≤ 2`.  If `MCU.__init__`/`_define` accept with the base count
+`b = numBaseR angle ε = ⌈log₂(angle / arccos(1 - ε²/2))⌉ + 1` (any `b ≠ 0`, `b ≤ k`, negative
+counts included) and emit the gate list `gs`, then for EVERY state `ψ` — superposed controls, any
+target state — and every fixed background `bg` of the spectator wires,
+
+  `Σ_f |(⟦gs⟧ψ - C^k(U)ψ)(f)|²  ≤  ε² · Σ_f |ψ(f)|²`,
+
+both sums over all `2^(k+1)` basis labels `f` of the wires `0 … k` (`emb (k+1) bg f` is the label
+with bits `f` there and `bg` elsewhere).  Equivalently `‖⟦gs⟧ - C^k(U)‖₂ ≤ ε` in the operator
+(spectral) norm: this is the bound arXiv:2310.14974 claims and `error` promises.
+Proof: `C04_mcu_operator` gives `⟦gs⟧ = C^k(U)∘D` with `D` the controlled `V = U^(-1/2^(b-1))`
+(for `b < 0`: `⟦gs⟧ = 1`); on the two labels that differ only in the target the difference is
+`W·(V - 1)` applied to the pair of amplitudes of `ψ` (or `0`), `W ∈ {U, 1}` preserves the length of
+the pair, and `V - 1 = P·diag(e^{-iα/2^(b-1)} - 1, e^{-iβ/2^(b-1)} - 1)·P†` shrinks it by
+`max|e^{iφ} - 1| ≤ 2·sin(angle/2^b) ≤ ε` (`C04_mcu_base`); summing the pairs gives the bound.
+Trusted (K4): `np.linalg.eig`/`orthonormal_eig` return such `P, α, β`; floating-point evaluation
+of `numBaseR` (`np.log2`, `np.arccos`, `np.ceil`) agrees with the exact value; the meaning of the
+multi-target call (`C04_multitarget_spec`); qiskit's `crx`/`.control(1)`.  A selected angle
+`≤ 0` is outside the statement (there `np.log2` yields `nan`/`-inf` and `int()` raises). -/
+theorem C04_mcu_error (P : Mat2 ℂ) (hP1 : P * cadj P = 1) (hP2 : cadj P * P = 1)
+    (α β angle ε : ℝ) (ha : 0 < angle) (hα : |α| ≤ angle) (hβ : |β| ≤ angle)
+    (h0 : 0 < ε) (h2 : ε ≤ 2) (k : Nat) (cs : Option (List Bool)) (gs : List (LG ℝ))
+    (h : mcu k (numBaseR angle ε) cs = some gs) (bg : Bits) (ψ : State ℂ) :
+    ∑ f : Fin (k + 1) → Bool,
+        Complex.normSq (semM (urReal P (cadj P) α β) rxReal gs ψ (emb (k + 1) bg f)
+          - applyMcu (patLits k (fun i => i) cs) (urReal P (cadj P) α β 1) k ψ (emb (k + 1) bg f))
+      ≤ ε ^ 2 * ∑ f : Fin (k + 1) → Bool, Complex.normSq (ψ (emb (k + 1) bg f)) :=
+  mcu_error P hP1 hP2 α β angle ε ha hα hβ h0 h2 k cs gs h bg ψ
+
+/-- Non-vacuity of `C04_mcu_error`: `U = P·diag(e^{iπ}, e^{i})·P†` with the rotation
+`P = [[3/5, -4/5], [4/5, 3/5]]` (selected angle `π`), `ε = √2` (`arccos(1 - ε²/2) = π/2`, so the
+base count is `⌈log₂ 2⌉ + 1 = 2`), three controls with pattern `101`: the constructor accepts with
+one extra control, and the bound holds for every state. -/
+example (bg : Bits) (ψ : State ℂ) :
+    numBaseR Real.pi (Real.sqrt 2) = 2 ∧
+    ∃ gs : List (LG ℝ), mcu 3 (numBaseR Real.pi (Real.sqrt 2)) (some (parseCs "101")) = some gs ∧
+      ∑ f : Fin (3 + 1) → Bool,
+        Complex.normSq (semM (urReal ⟨3 / 5, -(4 / 5), 4 / 5, 3 / 5⟩
+              (cadj ⟨3 / 5, -(4 / 5), 4 / 5, 3 / 5⟩) Real.pi 1) rxReal gs ψ (emb (3 + 1) bg f)
+          - applyMcu [(0, true), (1, false), (2, true)]
+              (urReal ⟨3 / 5, -(4 / 5), 4 / 5, 3 / 5⟩ (cadj ⟨3 / 5, -(4 / 5), 4 / 5, 3 / 5⟩)
+                Real.pi 1 1) 3 ψ (emb (3 + 1) bg f))
+        ≤ Real.sqrt 2 ^ 2 * ∑ f : Fin (3 + 1) → Bool, Complex.normSq (ψ (emb (3 + 1) bg f)) := by
+  have hb : numBaseR Real.pi (Real.sqrt 2) = 2 := by
+    have h1 : thetaEps (Real.sqrt 2) = Real.pi / 2 := by
+      rw [thetaEps, Real.sq_sqrt (by norm_num)]
+      norm_num
+    have h2 : Real.pi / (Real.pi / 2) = 2 := by
+      field_simp
+    rw [numBaseR, h1, h2, Real.logb_self_eq_one (by norm_num)]
+    norm_num
+  refine ⟨hb, ?_⟩
+  obtain ⟨gs, hgs⟩ : ∃ gs : List (LG ℝ), mcu 3 2 (some (parseCs "101")) = some gs := ⟨_, rfl⟩
+  have hcad : cadj (⟨3 / 5, -(4 / 5), 4 / 5, 3 / 5⟩ : Mat2 ℂ) = ⟨3 / 5, 4 / 5, -(4 / 5), 3 / 5⟩ := by
+    apply Mat2.ext' <;> simp [cadj, map_ofNat]
+  have hP : (⟨3 / 5, -(4 / 5), 4 / 5, 3 / 5⟩ : Mat2 ℂ) * cadj ⟨3 / 5, -(4 / 5), 4 / 5, 3 / 5⟩ = 1 := by
+    rw [hcad]
+    apply Mat2.ext' <;> simp [Mcsu.mat_mul_def, Mcsu.mat_one_def, Mat2.mul, Mat2.one] <;> norm_num
+  have hP' : cadj (⟨3 / 5, -(4 / 5), 4 / 5, 3 / 5⟩ : Mat2 ℂ) * ⟨3 / 5, -(4 / 5), 4 / 5, 3 / 5⟩ = 1 := by
+    rw [hcad]
+    apply Mat2.ext' <;> simp [Mcsu.mat_mul_def, Mcsu.mat_one_def, Mat2.mul, Mat2.one] <;> norm_num
+  have hgs' : mcu 3 (numBaseR Real.pi (Real.sqrt 2)) (some (parseCs "101")) = some gs := by
+    rw [hb]; exact hgs
+  refine ⟨gs, hgs', ?_⟩
+  have hsq : (0 : ℝ) < Real.sqrt 2 := Real.sqrt_pos.mpr (by norm_num)
+  have hle : Real.sqrt 2 ≤ 2 := by
+    rw [Real.sqrt_le_left (by norm_num)]
+    norm_num
+  exact C04_mcu_error _ hP hP' Real.pi 1 Real.pi (Real.sqrt 2) Real.pi_pos
+    (by rw [abs_of_pos Real.pi_pos])
+    (by rw [abs_of_pos one_pos]; linarith [Real.two_le_pi]) hsq hle 3 _ gs hgs' bg ψ
 
 end Qclib
